@@ -645,6 +645,8 @@ def joint_minimal(R: Run, rng: random.Random, workdir: str, k: int):
         base["shape"][1] += 1
     n = rng.choice([2, 2, 3])
     kind = rng.choice(["dir-only", "dir+data", "dir+data", "dir+option"])
+    if k < 3:  # the three kinds, with and without stats, are in every run
+        kind, base["stats"] = [("dir+data", False), ("dir-only", True), ("dir+option", False)][k]
     cfgs = [dict(base, shape=list(base["shape"])) for _ in range(n)]
     for j in range(1, n):
         if kind == "dir+data" and not (n == 3 and j == 1 and rng.random() < 0.5):  # mixing identical and different pixel data
@@ -1503,7 +1505,7 @@ def run(R: Run):
     # graph construction cost grows with the tile count: quick looks at members of up to ~500 tiles, thorough ~4000
     family = [f_ for f_ in family if f_[0] * f_[1] <= R.pick(500, 4000) * f_[2] ** 2]
     fam_e2e = []
-    for k_, (N, M, b, gained) in enumerate(family[: R.pick(90, 1200)]):
+    for k_, (N, M, b, gained) in enumerate(family[: R.pick(45, 1200)]):
         ny, nx = (N, M) if k_ % 2 else (M, N)
         ns = rng.choice([1, 1, 2])
         shape = [ny, nx] if ns == 1 else rng.choice([[ns, ny, nx], [ny, nx, ns]])
@@ -1542,7 +1544,7 @@ def run(R: Run):
     workdir = tempfile.mkdtemp(prefix="c05-")
     try:
         n_e2e = R.pick(170, 4200)
-        t_budget = R.pick(35, 440)
+        t_budget = R.pick(22, 440)
         t0 = time.time()
         corpus = [
             dict(shape=[8, 200], axis="YX", ns=1, dtype="uint8", blocksize=[32], comp="deflate", predictor=None, nodata=None,
@@ -1574,6 +1576,11 @@ def run(R: Run):
             dict(base_cfg, dst_state="existing-small"),
             dict(base_cfg, dst_state="parts-dir", spill_sz=1, wpc=3),
             dict(base_cfg, shape=[200, 170], dtype="float64", blocksize=[64], comp="zstd", spill_sz=1, wpc=3, recompute=True),
+            # thread pools with many LARGE edge tiles in flight at once (image lower than its tile: every tile is padded and
+            # encoded for a while): per-tile work must not share state between worker threads
+            dict(base_cfg, shape=[200, 8192], blocksize=[256], chunks=[256, 256], sched="threads8", level=6, stats=False, pixseed=31),
+            dict(base_cfg, shape=[100, 6000], axis="YXS", ns=3, sch=3, dtype="float32", blocksize=[256], chunks=[128, 512], sched="threads4",
+                 comp="zstd", stats=False, pixseed=32),
             dict(base_cfg, shape=[64, 300], dtype="uint8"),   # one axis aligned, the other gains a tile by padding
             dict(base_cfg, shape=[272, 16], dtype="uint8", bs_container="tuple"),
         ]
@@ -1696,8 +1703,8 @@ def run(R: Run):
 
         # ---- joint computes whose members differ as little as possible (only the directory / + data / + one option)
         t_j = time.time()
-        for k in range(R.pick(24, 300)):
-            if time.time() - t_j > R.pick(14, 200):
+        for k in range(R.pick(12, 300)):
+            if time.time() - t_j > R.pick(8, 200):
                 break
             try:
                 joint_minimal(R, rng, workdir, k)
@@ -1707,7 +1714,7 @@ def run(R: Run):
         # ---- sequences of saves that RE-USE the caller's option objects (one compressionargs dict, one blocksize list):
         # every file must come out as with fresh arguments (a level / LERC tolerance given for one save must not stick),
         # and the objects must stay as the caller made them
-        for k in range(R.pick(6, 80)):
+        for k in range(R.pick(4, 80)):
             shared = {"cargs": {}, "blocksize": [16, 32]}
             frozen = snapshot(shared)
             fam_ = rng.choice([["lerc", "lerc", "Lerc_ZSTD"], ["zstd", "zstd", "deflate"], ["lerc_deflate", "lerc", "lerc"]])
